@@ -819,6 +819,109 @@ def erasedRun {σ : Type} (inner : σ → FOp → FObs × σ) (mw mg mr mv : Lis
 
 end Interp
 
+/-! ### round four: the non-blocking members of the communication classes, as far as the future they return goes -/
+
+/-- which buffer of the future an `MPI_I*` call is given -/
+inductive BufArg where
+  /-- `future.get_mpidata()` : `data_` -/
+  | data
+  /-- `future.get_send_mpidata()` : `send_data_` -/
+  | sendData
+  | inPlace
+  deriving DecidableEq, Repr
+
+/-- what the future is constructed from: a validity flag (`MPIFuture<void> future(true)`, `return {true}`), one forwarded
+parameter (the payload), or two forwarded parameters (`data_`, `send_data_`) -/
+inductive FutInit where
+  | flag (b : Bool)
+  | one (param : Nat)
+  | two (dataParam sendParam : Nat)
+  deriving DecidableEq, Repr
+
+/-- a non-blocking member of `Communication<MPI_Comm>` as the translator reads it -/
+structure MpiOp where
+  name : String
+  arity : Nat
+  ctor : FutInit
+  /-- the `MPI_I*` function that posts the operation -/
+  call : String
+  bufs : List BufArg
+  /-- the last argument of the call is `&future.req_` -/
+  reqInFuture : Bool
+  /-- the member ends with `return future;` -/
+  returnsFuture : Bool
+  deriving DecidableEq, Repr
+
+/-- `dst = src`, `*(dst.begin()) = src`, `dst = *(src.begin())` between parameters (sequential members) -/
+structure SeqCopy where
+  dst : Nat
+  dstFirst : Bool
+  src : Nat
+  srcFirst : Bool
+  deriving DecidableEq, Repr
+
+structure SeqOp where
+  name : String
+  arity : Nat
+  copies : List SeqCopy
+  ret : FutInit
+  deriving DecidableEq, Repr
+
+/-- the future a member hands to its caller -/
+inductive StartFut where
+  | mpiVoid (f : MpiVoid)
+  | mpiOne (f : MpiFut)
+  | mpiTwo (f : MpiFut2)
+  | pseudoVoid (f : PseudoVoid)
+  | pseudoOne (f : PseudoFut)
+  deriving DecidableEq, Repr
+
+namespace Interp
+
+/-- the future returned by a member of `Communication<MPI_Comm>` called with the parameter values `args`; `incoming` is
+what the posted operation will deliver.  The request the caller can wait for is the posted one only if the call stored
+it in the future; a member that does not return its future returns nothing we know. -/
+def mpiOpStart (op : MpiOp) (args : List (List Int)) (incoming : List Int) : Option StartFut :=
+  if !op.returnsFuture then none else
+  let req := if op.reqInFuture then Req.pending else Req.null
+  match op.ctor with
+  | .flag b => some (.mpiVoid { valid := b, req := req })
+  | .one i => (args[i]?).map fun d => .mpiOne { valid := true, req := req, buf := d, incoming := incoming }
+  | .two i j =>
+    match args[i]?, args[j]? with
+    | some d, some sd => some (.mpiTwo { base := { valid := true, req := req, buf := d, incoming := incoming }, send := some sd })
+    | _, _ => none
+
+def applyCopy (args : List (List Int)) (c : SeqCopy) : Option (List (List Int)) :=
+  match args[c.src]?, args[c.dst]? with
+  | some sv, some dv =>
+    let v : Option (List Int) := if c.srcFirst then sv.head?.map fun x => [x] else some sv
+    match v with
+    | none => none
+    | some v =>
+      if c.dstFirst then
+        match v, dv with
+        | [x], _ :: rest => some (args.set c.dst (x :: rest))
+        | _, _ => none
+      else some (args.set c.dst v)
+  | _, _ => none
+
+def applyCopies : List SeqCopy → List (List Int) → Option (List (List Int))
+  | [], args => some args
+  | c :: cs, args => (applyCopy args c).bind (applyCopies cs)
+
+/-- the future returned by a member of the sequential `Communication` -/
+def seqOpStart (op : SeqOp) (args : List (List Int)) : Option StartFut :=
+  match applyCopies op.copies args with
+  | none => none
+  | some a =>
+    match op.ret with
+    | .flag b => some (.pseudoVoid { valid := b })
+    | .one i => (a[i]?).map fun d => .pseudoOne { valid := true, data := d }
+    | .two _ _ => none
+
+end Interp
+
 /-! ### the collectives whose results the futures deliver (specification level, rank order) -/
 
 inductive Red where
